@@ -106,7 +106,11 @@ class Snap:
         return ("expr", repr(o), hash(o), self.K.key(o), str(o.ufl_shape), str(o.ufl_free_indices))
 
     def check(self, after):
-        now = self.take()
+        try:
+            now = self.take()
+        except RecursionError:
+            raise Violation(f"an input can no longer be traversed after step '{after}' (its DAG has become cyclic)",
+                            {"kind": "mutated:cycle", "step": after})
         if now != self.data:
             names = ["kind", "repr", "hash", "integrals (type, ids, integrand structure, metadata)", "signature", "arguments", "coefficients"] \
                 if now[0] == "form" else ["kind", "repr", "hash", "structure", "shape", "free indices"]
@@ -184,6 +188,11 @@ def check_case(case):
     chained = False
 
     def add(o):
+        from vf.interp import is_acyclic
+
+        if isinstance(o, ufl.classes.Expr) and not is_acyclic(o):
+            raise Violation("a constructor returned a cyclic DAG: it re-initialised one of its operands in place",
+                            {"kind": "mutated:cycle"})
         if isinstance(o, ufl.Form):
             if o.integrals() and len(pool_f) < 8:
                 pool_f.append(o)
@@ -280,7 +289,7 @@ def check_case(case):
                     chained = True
                 if r is not None:
                     add(r)
-            except RecursionError:
+            except (RecursionError, Violation):
                 raise
             except BaseException as ex:
                 if type(ex).__name__ in ("CaseTimeout", "StopRun", "KeyboardInterrupt"):
@@ -344,7 +353,7 @@ def check_case(case):
                     chained = True
                 if r is not None:
                     add(r)
-            except RecursionError:
+            except (RecursionError, Violation):
                 raise
             except BaseException as ex:
                 if type(ex).__name__ in ("CaseTimeout", "StopRun", "KeyboardInterrupt"):
